@@ -400,6 +400,38 @@ pub fn run(tier: &str) -> Run {
         }
         run.require("member-list unions: conserved", 5000);
     }
+    // rich documents (singletons MOD_COMMON / MOD_PAR / A2ML / VARIANT_CODING with all their optional children, elements with
+    // sub-elements) merged into an empty module, into new() and into each other
+    {
+        let rich: Vec<String> = crate::corpus::rich_docs(&g).iter().map(|d| d.doc.text()).collect();
+        let mut pairs: Vec<(String, String, String)> = Vec::new();
+        for (j, b) in rich.iter().enumerate() {
+            pairs.push((format!("empty module + rich({j})"), empty.clone(), b.clone()));
+            pairs.push((format!("new() + rich({j})"), a2lfile::new().write_to_string(), b.clone()));
+            for (i, a) in rich.iter().enumerate() {
+                pairs.push((format!("rich({i}) + rich({j})"), a.clone(), b.clone()));
+            }
+        }
+        for (label, ta, tb) in pairs {
+            run.evaluations += 1;
+            run.transitions += 3;
+            run.states.insert(fnv1a(format!("{ta}|{tb}").as_bytes()));
+            match merge_and_check(&g, &ta, &tb) {
+                Err(e) if e.starts_with("machinery") => run.machinery(e),
+                Err(e) => run.violation(format!("C08/panic {}", vcore::explore::panic_key(&e)), format!("{label}: {e}"), json!({"a": ta, "b": tb})),
+                Ok(vs) => {
+                    let cv: Vec<&MV> = vs.iter().filter(|v| v.category == "conservation").collect();
+                    if cv.is_empty() {
+                        run.outcome("rich documents: conserved");
+                    }
+                    for v in cv {
+                        run.violation(format!("C08/{}/rich/{}", v.oracle, v.detail), format!("{label}: {}", v.what), json!({"a": ta, "b": tb}));
+                    }
+                }
+            }
+        }
+        run.require("rich documents: conserved", 10);
+    }
     // histories on one live object (the state keeps its in-memory indexes between the merges): every sequence of merges up
     // to the depth over the live menu, from an empty module and from the first menu module
     {
